@@ -327,6 +327,34 @@ class World:
             r.oneshot = True
             return r
 
+        @reg("filter")
+        def _filter(I, fn, x):
+            """filter(fn, iterable): a one-shot iterator over the elements for which fn (or truthiness) holds."""
+            seq = I.iterable(x)
+            if isinstance(seq, list):
+                keep = []
+                for v in seq:
+                    c = I.truth(v if fn is None else I.call(fn, [v], {}))
+                    if I.branch(c):
+                        keep.append(v)
+                return OneShotList(keep)
+            seq = seq.consume()
+
+            def guard(i):
+                I.pure += 1
+                try:
+                    v = seq.elem(i)
+                    c = I.truth(v if fn is None else I.call(fn, [v], {}))
+                finally:
+                    I.pure -= 1
+                return _bt(c)
+
+            r = Stream(seq.length, None, list(seq.guards) + [guard], seq.elem)
+            if hasattr(seq, "src"):
+                r.src = seq.src
+            r.oneshot = True
+            return r
+
         @reg("reversed")
         def _reversed(I, x):
             seq = I.iterable(x)
